@@ -59,6 +59,9 @@ def parseRK (ws : List String) : Option RK :=
 def parseAdapter : String → Adapter
   | "cbawait" => Adapter.cbAwait
   | "cbref" => Adapter.cbAwait
+  | "cbawt" => Adapter.cbAwait
+  | "cbwrap" => Adapter.cbAwait
+  | "callawt" => Adapter.callAwt
   | "mkprom" => Adapter.mkProm
   | "discard" => Adapter.discard
   | "conv" => Adapter.conv
